@@ -252,7 +252,10 @@ func (c *c19) newLut(kind string) *lut {
 		}
 		l.loader = ld
 	case "embedfs":
-		l.loader = embedfs.NewLoader("embedtree/root", embedTree)
+		// the root directory may be spelled in any way that cleans to the same place
+		root := []string{"embedtree/root", "embedtree/root/", "./embedtree/root", "embedtree//root", "embedtree/x/../root", "embedtree/./root"}[c.t.Choose(6)]
+		c.hist = append(c.hist, "embedfs.NewLoader("+root+")")
+		l.loader = embedfs.NewLoader(root, embedTree)
 		fs.WalkDir(embedTree, "embedtree/root", func(p string, d fs.DirEntry, err error) error {
 			rel := "/" + strings.TrimPrefix(strings.TrimPrefix(p, "embedtree/root"), "/")
 			rel = Normalize(rel)
@@ -321,6 +324,48 @@ func (c *c19) edit(l *lut) {
 			l.model.removeAll(p)
 			c.hist = append(c.hist, "simfs.removeAll("+p+")")
 		}
+	}
+}
+
+// openOnly: Open(p) some time after an Exists(p) call, with edits in between. Judged against the
+// reference at the time of the Open: if the path is a file now, Open must yield its current bytes.
+func (c *c19) openOnly(name string, ld jet.Loader, owners []*lut, p string, spelled string) {
+	c.nQ++
+	wantFile, wantBytes, ownerKind := false, "", ""
+	for _, o := range owners {
+		if b, ok := o.model.files[p]; ok {
+			wantFile, wantBytes, ownerKind = true, b, o.kind
+			break
+		}
+	}
+	if !wantFile {
+		return
+	}
+	var data []byte
+	var err error
+	pc := sim.Guard(func() {
+		var rc io.ReadCloser
+		rc, err = ld.Open(spelled)
+		if err == nil {
+			data, err = io.ReadAll(rc)
+			rc.Close()
+		}
+	})
+	c.env.Event("%s.Open(%q) later -> err=%v", name, spelled, err)
+	if pc != nil {
+		c.env.Violate("contract", name+":panic", "%s.Open(%q) panicked: %v", name, spelled, pc)
+		return
+	}
+	if err != nil {
+		c.env.Violate("contract", name+":open-fails", "%s.Open(%q) failed (%v) although the path is a regular file (of the %s loader) and Exists had been asked before\nhistory: %s", name, spelled, err, ownerKind, strings.Join(c.hist, " "))
+		return
+	}
+	if string(data) != wantBytes {
+		key := name + ":content"
+		if len(owners) > 1 {
+			key = name + ":order"
+		}
+		c.env.Violate("contract", key, "%s.Open(%q), some edits after the Exists call, read %q; the reference holds %q now (first loader in construction order that has the path: %s)\nhistory: %s", name, spelled, data, wantBytes, ownerKind, strings.Join(c.hist, " "))
 	}
 }
 
@@ -450,6 +495,13 @@ func RunC19(env *sim.Env) {
 			if kind == "httpfs" {
 				l.sfs.faultIn = -1
 			}
+			if t.Choose(5) == 4 {
+				// an edit between the Exists and a later Open of the same path
+				c.edit(l)
+				c.hist = append(c.hist, "Open-later("+p+")")
+				c.openOnly(kind, l.loader, []*lut{l}, p, spelled)
+				env.Stat("probe:open_after_intervening_edit", 1)
+			}
 		}
 		if l.sfs != nil {
 			for k, n := range l.sfs.fired {
@@ -530,7 +582,19 @@ func RunC19(env *sim.Env) {
 						}
 					}
 				}
-				c.query("multi", m, active, p, p, nil)
+				if t.Choose(4) == 3 {
+					// Exists now, an edit, Open later
+					c.query("multi", m, active, p, p, nil)
+					c.edit(luts[t.Choose(len(luts))])
+					if t.Choose(2) == 1 {
+						c.edit(luts[t.Choose(len(luts))])
+					}
+					c.hist = append(c.hist, "Open-later("+p+")")
+					c.openOnly("multi", m, active, p, p)
+					env.Stat("probe:open_after_intervening_edit", 1)
+				} else {
+					c.query("multi", m, active, p, p, nil)
+				}
 			}
 		}
 	}
